@@ -79,7 +79,7 @@ def main() -> int:
         ctx = common.Ctx(pid, a.tier, a.seed)
         common.drive(ctx, mod)
     else:
-        timeout = getattr(mod, "WATCHDOG", {"quick": 240, "thorough": 3000})[a.tier]
+        timeout = getattr(mod, "WATCHDOG", {"quick": 900, "thorough": 5400})[a.tier]
         ctx = common.run_sharded(pid, a.tier, a.seed, nshards, timeout)
     return common.conclude(ctx, mod, time.time() - t0)
 
